@@ -24,11 +24,14 @@ RULE = ("charts of base/osu/quaver/sm/bms/o2jam with 0-6 rows per list (empty li
         "duplicate / negative row labels, lists built from items, by filtering, or via `empty(n)`), histories of 1-8 calls: "
         "stack(include_types), property and item assignment (scalar, array, op=), loc assignment with explicit or "
         "condition-derived masks on one or several columns (existing, foreign, new), calls that raise, 1-3 live stackers "
-        "(fresh or stale); mapsets of 0-4 charts with frame assignment and op=. distinct = canonical JSON; non-trivial = at "
-        "least one successful call changed a cell of a list")
+        "(fresh or stale), stacks restricted to exactly one list; mapsets of 0-4 charts with frame assignment and op=; "
+        "bystanders in 3 of 4 cases: a second chart whose lists were assigned from the edited chart (shared frames), "
+        "free-standing lists on the same frames, mapset charts sharing lists — required unchanged after every call. "
+        "distinct = canonical JSON; non-trivial = at least one successful call changed a cell of a list")
 ASSUMPTIONS = [
     "exact stream: all numbers dyadic with bounded exponent range, so every double operation of the history is exact and cells are compared for equality",
     "an exception raised by a call is observable; the specification says such a call changes nothing (checked)",
+    "bystanders (lists outside the edited chart that share a DataFrame with one of its lists) are unchanged in the model by value semantics; the absence of aliasing in the implementation is observed (snapshot after every call), not proved",
     "boolean masks are inputs of the property: condition-derived masks are computed with the real stack getter and handed to model and spec as explicit masks",
 ]
 TRUSTED_EXTRA = ["pandas concat/reset_index/loc/iloc/label alignment are modelled as list operations (Model/Stack.lean), tied by this correspondence only"]
@@ -335,8 +338,11 @@ def gen_ops_map(rng, game, m):
         need_stack = not stackers or (rng.random() < (0.3 if multi else 0.15))
         if need_stack and i < n_ops + 1:
             incl = None
-            if rng.random() < 0.35:
+            if rng.random() < 0.45:
                 incl = rng.sample(TYPE_NAMES[game], rng.choice([1, 1, 2]))
+                if rng.random() < 0.45:
+                    # a stack that covers exactly ONE list (pd.concat of a single frame): its exact class
+                    incl = [reg()[game]["lists"][rng.choice(list(SCHEMA[game]))]["cls"].__name__]
                 if rng.random() < 0.04:
                     incl = ["SMStopList"] if game != "sm" else ["OsuSvList"]       # matches nothing: stack() raises
             keys = member_keys(game, incl)
@@ -433,9 +439,26 @@ def gen_raw(rng, tier, i):
     if rng.random() < 0.22:
         n_maps = rng.choice([0, 1, 2, 2, 3, 4])
         maps = [gen_map(rng, game) for _ in range(n_maps)]
-        return dict(claim="mapset", game=game, maps=maps, ops=gen_ops_set(rng, game, maps))
+        return dict(claim="mapset", game=game, maps=maps, ops=gen_ops_set(rng, game, maps), by=gen_by(rng, game, len(maps)))
     m = gen_map(rng, game)
-    return dict(claim="map", game=game, maps=[m], ops=gen_ops_map(rng, game, m))
+    return dict(claim="map", game=game, maps=[m], ops=gen_ops_map(rng, game, m), by=gen_by(rng, game, 1))
+
+
+def gen_by(rng, game, n_maps):
+    """bystanders: lists that share their DataFrame with a list of the edited chart without being stacked —
+    `chart`: a second chart whose lists were ASSIGNED from chart 0 (`hard.bpms = easy.bpms`: the map setter stores
+    `val.df`, no copy); `free`: free-standing lists `ListClass(m.<key>)` (same frame); `inner` (mapsets): chart 1 of the
+    mapset is given chart 0's lists (two difficulties with the same timing points)"""
+    keys = list(SCHEMA[game])
+    by = {}
+    if n_maps == 0 or rng.random() < 0.25:
+        return by
+    by["chart"] = keys if rng.random() < 0.5 else rng.sample(keys, rng.randint(1, len(keys)))
+    if rng.random() < 0.6:
+        by["free"] = rng.sample(keys, rng.randint(1, min(3, len(keys))))
+    if n_maps >= 2 and rng.random() < 0.3:
+        by["inner"] = rng.sample(keys, rng.randint(1, len(keys)))
+    return by
 
 
 def gen_ops_set(rng, game, maps):
@@ -522,6 +545,21 @@ def corpus():
                        dict(k="loc_set", sid=0, mask=dict(bits=[True, False, False, True]), cols=["zz"], single=True, v=o(5)),
                        dict(k="map", sid=0, col="zz", f=["add", o(1)]),
                        dict(k="attr_map", sid=0, name="offset", f=["mul", o(2)])]))
+    # bystanders: a second chart that was given this chart's lists, free-standing lists on the same frames; stacks that
+    # cover exactly one list, in-place arithmetic and loc assignments
+    for g in GAMES:
+        keys = list(SCHEMA[g])
+        m = {k: dict(rows=[]) for k in keys}
+        m["hits"] = dict(rows=[[o(250 * i), o(i % 4)] + [gen_cell(__import__("random").Random(i), c) for c in SCHEMA[g]["hits"][2:]] for i in range(5)])
+        m["bpms"] = dict(rows=[[o(0), o(120), o(4)] + [gen_cell(__import__("random").Random(7), c) for c in SCHEMA[g]["bpms"][3:]],
+                               [o(500), o(90), o(4)] + [gen_cell(__import__("random").Random(8), c) for c in SCHEMA[g]["bpms"][3:]]])
+        hcls = {"base": "HitList", "osu": "OsuHitList", "qua": "QuaHitList", "sm": "SMHitList", "bms": "BMSHitList", "o2j": "O2JHitList"}[g]
+        c.append(dict(claim="map", game=g, maps=[m], by=dict(chart=keys, free=["bpms", "hits"]),
+                      ops=[dict(k="stack", incl=["BpmList"]), dict(k="attr_map", sid=0, name="offset", f=["add", o(10)]),
+                           dict(k="loc_map", sid=0, mask=dict(cond=["bpm", "gt", o(100)]), cols=["bpm"], single=True, f=["mul", o(2)]),
+                           dict(k="stack", incl=[hcls]), dict(k="attr_map", sid=1, name="column", f=["add", o(1)]),
+                           dict(k="loc_set", sid=1, mask=dict(cond=["offset", "gt", o(600)]), cols=["offset"], single=True, v=o(123)),
+                           dict(k="stack", incl=None), dict(k="attr_map", sid=2, name="offset", f=["mul", o(2)])]))
     # mapset: charts of unequal length, an empty chart, a frame with fewer rows than charts
     mk = lambda n: dict(hits=dict(rows=[[o(1000 * (i + 1)), o(i)] for i in range(n)]), holds=dict(rows=[]), bpms=dict(rows=[[o(0), o(120), o(4)]] if n else []))
     c.append(dict(claim="mapset", game="base", maps=[mk(2), mk(3), mk(0), mk(1)],
@@ -585,6 +623,16 @@ def valid(case):
                 if "labels" in d and ("keep" in d or len(d["labels"]) != len(d["rows"])):
                     return False
         if case["claim"] == "map" and not loc_rules_ok(game, case["maps"][0], case["ops"]):
+            return False
+        by = case.get("by") or {}
+        if any(k not in ("chart", "free", "inner") for k in by):
+            return False
+        for ks in by.values():
+            if not isinstance(ks, list) or any(k not in SCHEMA[game] for k in ks) or len(set(ks)) != len(ks):
+                return False
+        if by and not case["maps"]:
+            return False
+        if by.get("inner") and len(case["maps"]) < 2:
             return False
         n_st = 0
         for op in case["ops"]:
@@ -737,6 +785,37 @@ def snap_list(key, lst):
 
 def snap_map(mp):
     return [snap_list(k, v) for k, v in mp.objs.items()]
+
+
+def make_bystanders(game, charts, by):
+    """-> [(name, list object)] of lists that share a frame with chart 0 and are NOT reachable from the edited
+    chart(s): whatever is assigned through a stack, they must stay exactly as they are"""
+    out = []
+    if not by or not charts:
+        return out
+    r = reg()[game]
+    src = charts[0]
+    if by.get("chart"):
+        other = r["map"]()
+        for k in by["chart"]:
+            setattr(other, k, getattr(src, k))        # other.objs[k].df = src.<k>.df
+        out += [("chart." + k, v) for k, v in other.objs.items()]
+    for k in by.get("free", []):
+        lst = getattr(src, k)
+        out.append(("free." + k, type(lst)(lst)))       # TimedList(other_list): self.df = objs.df
+    return out
+
+
+def snap_bystanders(bys):
+    return [snap_list(name, lst) for name, lst in bys]
+
+
+def bystander_diff(by0, bys):
+    now = snap_bystanders(bys)
+    for a, b in zip(by0, now):
+        if not tbl_eq_lists(a, b):
+            return dict(bystander=a["key"], before=a, after=b)
+    return None
 
 
 def err_class(e):
@@ -909,6 +988,11 @@ def run_map(case, drv):
     r = reg()[game]
     tags = [game, "map"]
     mp = build_map(game, case["maps"][0])
+    bys = make_bystanders(game, [mp], case.get("by"))
+    by0 = snap_bystanders(bys)
+    by_bad = None
+    if bys:
+        tags.append("bystanders")
     init = snap_map(mp)
     if any(l["labels"] != list(range(len(l["labels"]))) for l in init):
         tags.append("non-default-labels")
@@ -937,6 +1021,10 @@ def run_map(case, drv):
         sent_ops.append(sent)
         impl_errs.append(err)
         impl_steps.append(snap_map(mp))
+        if by_bad is None and bys:
+            d = bystander_diff(by0, bys)
+            if d is not None:
+                by_bad = dict(step=len(sent_ops) - 1, op=sent, **d)
     # sids: the model only pushes a stacker when stack() succeeded — same numbering as `stacks`
     sent_ops = [wire(o) for o in sent_ops]
     m = drv.call("c12.run", mcls=r["map"].__name__, lists=init, ops=sent_ops)
@@ -970,6 +1058,10 @@ def run_map(case, drv):
             first_bad = i
             detail["raises"] = dict(step=i, op=sent_ops[i], impl_err=impl_errs[i], model_err=None)
             break
+    # "changes nothing else": a list outside the edited chart that merely shares a frame with one of its lists
+    if by_bad is not None:
+        ok = False
+        detail["bystander_changed"] = by_bad
     stale = any(not f for f in fresh)
     if stale:
         tags.append("stale-stacker")
@@ -980,8 +1072,8 @@ def run_map(case, drv):
             detail["latest_but_stale"] = True
     dom = mo["wf"] and not stale
     kf = None
-    if not ok and first_bad is not None and first_bad < len(fresh) and not fresh[first_bad]:
-        kf = "D25"
+    if not ok and by_bad is None and first_bad is not None and first_bad < len(fresh) and not fresh[first_bad]:
+        kf = "D25"      # (a bystander change is never D25: a stale write-back only re-binds the chart's own lists)
     changed = any(not tbl_eq_lists([{k: v for k, v in l.items() if k != "labels"} for l in a],
                                    [{k: v for k, v in l.items() if k != "labels"} for l in b])
                   for a, b in zip([init] + impl_steps[:-1], impl_steps))
@@ -998,6 +1090,16 @@ def run_set(case, drv):
     r = reg()[game]
     tags = [game, "mapset", f"charts{min(len(case['maps']), 4)}"]
     maps = [build_map(game, m) for m in case["maps"]]
+    by = case.get("by") or {}
+    if by.get("inner") and len(maps) >= 2:
+        for k in by["inner"]:
+            setattr(maps[1], k, getattr(maps[0], k))      # chart 1 re-uses chart 0's lists (shared frames)
+        tags.append("inner-shared")
+    bys = make_bystanders(game, maps, by)
+    by0 = snap_bystanders(bys)
+    by_bad = None
+    if bys:
+        tags.append("bystanders")
     S = r["set"]
     ms = S(maps) if S.__name__ == "MapSet" else S(maps=maps)
     init = [snap_map(mp) for mp in maps]
@@ -1029,6 +1131,10 @@ def run_set(case, drv):
         sent_ops.append(sent)
         impl_errs.append(err)
         impl_steps.append([snap_map(mp) for mp in maps])
+        if by_bad is None and bys:
+            d = bystander_diff(by0, bys)
+            if d is not None:
+                by_bad = dict(step=len(sent_ops) - 1, op=sent, **d)
     jm = [dict(mcls=r["map"].__name__, lists=l) for l in init]
     sent_ops = [wire(o) for o in sent_ops]
     m = drv.call("c12.run_set", scls=S.__name__, maps=jm, ops=sent_ops)
@@ -1060,5 +1166,9 @@ def run_set(case, drv):
     if stale:
         tags.append("stale-stacker")
     kf = "D25" if (not ok and first_bad is not None and first_bad < len(fresh) and not fresh[first_bad]) else None
+    if by_bad is not None:
+        ok = False
+        kf = None
+        detail["bystander_changed"] = by_bad
     changed = any(not tbl_eq_lists(a, b) for a, b in zip([init] + impl_steps[:-1], impl_steps))
     return dict(claim="mapset", ok=ok, agree=agree, dom=not stale, kf=kf, tags=sorted(set(tags)), nontrivial=changed, detail=detail)
